@@ -148,7 +148,10 @@ def catalogue(rnd, quick):
         token = pattern[off + 1:pattern.index("»")]
         src = pattern.replace("«", "").replace("»", "")
         cases.append((kind, src, token, off, opts))
-    ctxs = ["", "<p>é\n  text</p>\n", "<!-- c -->\n\n  ", "<p>é\r\n  text</p>\r\n"]
+    # (the third context holds characters that str.splitlines() treats as line boundaries but that are ordinary
+    # characters of a template: only LF -- and CR, CRLF where not normalised -- end a line)
+    ctxs = ["", "<p>é\n  text</p>\n", "<!-- c -->\n\n  ", "<p>a\x0bb\x0cc\x1cd\x1de\x1ef\x85g\u2028h\u2029</p>\n <i title='\u2028'>\x0c</i> ",
+            "<p>é\r\n  text</p>\r\n"]
     for pre in ctxs:
         if "\r" in pre:
             # CRLF line endings before the planted error: one kind of its own (the offset then refers to the
